@@ -50,6 +50,14 @@ class PkgOne(Command):
     output = params.StringParameter()
     def execute(self, **kw): return "upkg.one.PkgOne"
 ''',
+    "upkg/named.py": '''
+from mpilot import params
+from mpilot.commands import Command
+class ScaleImpl(Command):
+    name = "Scale"
+    output = params.StringParameter()
+    def execute(self, **kw): return "upkg.named.Scale"
+''',
     "upkg/two.py": '''
 from mpilot import params
 from mpilot.commands import Command
@@ -127,7 +135,18 @@ def describe(libs):
             except Exception as e:
                 entry["behaviour"] = "raises " + type(e).__name__
         lib[name] = entry
-    return {"outcome": "ok", "library": lib}
+    # names reachable through a command file: a built-in name in MPilot form and in EEMS 2.0 form must resolve (or not)
+    # exactly as the selected libraries say
+    lookups = {}
+    for form, text in (("mpilot", "S = Sum(InFieldNames = [Q])"), ("eems2", "SUM(InFieldNames = [Q], NewFieldName = S)"), ("eems2-not", "NOT(InFieldName = Q, NewFieldName = S)")):
+        try:
+            Program.from_source(text, libraries=tuple(libs))
+            lookups[form] = "loaded"
+        except MPilotError as e:
+            lookups[form] = type(e).__name__
+        except Exception as e:
+            lookups[form] = "raw:" + type(e).__name__
+    return {"outcome": "ok", "library": lib, "lookups": lookups}
 
 
 def main():
